@@ -112,6 +112,7 @@ VARIABLE gsv                     \* a group vector over small integers: [n, fs, 
 RECURSIVE Expand(_, _), Copies(_, _)
 Copies(e, n)  == IF n = 0 THEN <<>> ELSE <<e>> \o Copies(e, n - 1)
 Expand(gs, k) == IF k = 0 THEN <<>> ELSE Expand(gs, k - 1) \o Copies(E(gs[k].fs, gs[k].cs, gs[k].dir), gs[k].n)
+\* (the metadata bit `ab` of ZipGuard entries is not carried: no clause reads it)
 Encode(gs)    == [k \in DOMAIN gs |-> G(gs[k].n, ToBig(gs[k].fs), ToBig(gs[k].cs), gs[k].dir)]
 EncodeLimits(lim) == [maxEntries |-> lim.maxEntries, maxSingle |-> ToBig(lim.maxSingle),
                       maxTotal |-> ToBig(lim.maxTotal), trNum |-> lim.trNum, trDen |-> lim.trDen,
